@@ -77,6 +77,11 @@ type vRecorder struct {
 }
 
 func (r *vRecorder) enter(kind int, vals []int64, err error, ctx context.Context) {
+	if r.yield {
+		// the entry of a callback is an observable action: another thread may get there first (the
+		// engine only switches threads at scheduling points, and recording the event is not one)
+		vYield()
+	}
 	r.inside++
 	if r.inside > 1 {
 		r.overlap = true
@@ -421,3 +426,24 @@ func (o *vRawObserver) CompleteWithContext(ctx context.Context) { o.r.enter(vkCo
 func (o *vRawObserver) IsClosed() bool                          { return false }
 func (o *vRawObserver) HasThrown() bool                         { return false }
 func (o *vRawObserver) IsCompleted() bool                       { return false }
+
+// vRawObs is the generic form of vRawObserver (no closed flag of its own).
+type vRawObs[T any] struct {
+	r    *vRecorder
+	flat func(T) []int64
+}
+
+func (o *vRawObs[T]) Next(v T)                                  { o.NextWithContext(context.Background(), v) }
+func (o *vRawObs[T]) NextWithContext(ctx context.Context, v T) { o.r.enter(vkNext, o.flat(v), nil, ctx) }
+func (o *vRawObs[T]) Error(err error)                           { o.ErrorWithContext(context.Background(), err) }
+func (o *vRawObs[T]) ErrorWithContext(ctx context.Context, err error) {
+	o.r.enter(vkError, nil, err, ctx)
+}
+func (o *vRawObs[T]) Complete()                               { o.CompleteWithContext(context.Background()) }
+func (o *vRawObs[T]) CompleteWithContext(ctx context.Context) { o.r.enter(vkComplete, nil, nil, ctx) }
+func (o *vRawObs[T]) IsClosed() bool                          { return false }
+func (o *vRawObs[T]) HasThrown() bool                         { return false }
+func (o *vRawObs[T]) IsCompleted() bool                       { return false }
+
+// vUseRaw makes vPipe attach a raw observer instead of a NewObserver-built one.
+var vUseRaw bool
